@@ -368,7 +368,7 @@ def try_concretize(e):
     return e
 
 
-def try_concretize_str(s):
+def try_concretize_str(s, retry=False):
     """the Python str if the path condition forces the whole content of the symbolic string"""
     from .values import SymStr
 
@@ -382,7 +382,7 @@ def try_concretize_str(s):
     m = c.ensure_model()
     v = s.concretize(m)
     ne = z.Not(s.eq_expr(v))
-    if z.is_sym(ne) and ne.get_id() in NOT_FORCED:
+    if z.is_sym(ne) and ne.get_id() in NOT_FORCED and not retry:
         return s
     if c.check_sat([ne]) is None:
         return v
